@@ -35,6 +35,8 @@ const (
 	unitsE = 5
 )
 
+var routeKeys = []string{"web.requests", "db.latency", "a", "b", "c", "queue.depth|host:x", "k6", "k7", "k8", "k9", "k10", "k11"}
+
 type stim struct {
 	Op string `json:"op"`
 	T  string `json:"t"`
@@ -232,6 +234,21 @@ func drive(idx int, c scase, q time.Duration) (*run, string, string) {
 			}
 			sort.Strings(l)
 			r.emit(map[string]any{"ev": "view", "t": n, "s": l})
+			// what the cluster routes by: the owner of a fixed set of keys, and whether the picker says it is this node
+			own, self, failed := []string{}, []bool{}, false
+			for _, k := range routeKeys {
+				o, me, err := trackers[n].pick.Select(k)
+				if err != nil {
+					failed = true
+					break
+				}
+				own, self = append(own, o), append(self, me)
+			}
+			if failed {
+				own, self = []string{}, []bool{}
+				r.hit("select-on-an-empty-picker")
+			}
+			r.emit(map[string]any{"ev": "select", "t": n, "own": own, "self": self, "err": failed})
 		}
 		return true
 	}
